@@ -123,6 +123,33 @@ func init() {
 				}}
 		}
 	}
+	// a demoted voter is isolated: it has no vote, must not campaign, and must not disturb the rest on return
+	regScenario("prevote4-demoted", func() *Scenario {
+		sc := mkPrevote(4, false, 5*tElection, false)()
+		iso := sc.Steps[1]
+		sc.Steps = []Step{sc.Steps[0],
+			earlyStep("demote-a-follower", func(w *World) bool { return w.now() >= 500*time.Millisecond && w.stableLeader() != nil }, func(w *World) {
+				l := w.leader()
+				var v *Node
+				for _, o := range w.nodes {
+					if o != l && o.up {
+						v = o
+					}
+				}
+				w.vals["demoted"] = v.id + 1
+				w.demote(l, v.id, 0)
+			}),
+			Step{Name: iso.Name, EarlyWhen: iso.EarlyWhen, When: func(w *World) bool { return w.callsDone() && iso.When(w) }, Do: func(w *World) {
+				victim := w.nodes[w.vals["demoted"]-1]
+				w.vals["victim"] = victim.id
+				w.tvals["iso"] = w.now()
+				w.vals["isolated"] = 1
+				w.isolate(victim.id, true)
+				w.mon.prevoteIsolated(victim)
+			}},
+			sc.Steps[2]}
+		return sc
+	})
 	// two followers cut off together (they still reach each other)
 	regScenario("prevote5-pair", func() *Scenario {
 		return &Scenario{Nodes: voters(5), Timed: true, Devs: DevStepEarly, Horizon: 9000,
